@@ -74,6 +74,233 @@ TUPLE_MSG = "'tuple' object does not support item assignment"
 
 # ----------------------------------------------------------------------------- construction of the inputs
 
+# ----------------------------------------------------------------------------- generator classes carried over from other properties
+# A  result ledger: every system / array a call handed out (and the attributes read from the object at construction) is kept with
+#    a snapshot and compared bit for bit after LATER calls on the same and on another Dislocation object; results of different
+#    calls must not share memory
+# B  caller-side mutation: arrays / lists handed IN must be bit-identical after the call; the caller then overwrites them (and, in
+#    a share of the cases, the systems an earlier call handed OUT and the array read from .shift): later answers must not move
+# C  forms: every array-like argument as tuple / float64 / int8 .. uint16 / big-endian / bool / float32 / float16 (exactly
+#    representable values) / read-only / strided array, numpy-scalar multipliers, indices and widths, unit cell stored in single
+#    precision / Fortran order / from lists
+# D  working units: the judged history under atomman.unitconvert.reset_units(<configuration>), physical system re-expressed with
+#    my own numericalunits product; the same history judged first under another configuration in the same process
+# E  near-threshold values (gens_c13.nears), G signed-permutation frames of the unit cell and exact halves, H the `options` clauses
+KEY_ALIAS = 'C13:set_shift:no-copy:shift-aliases-caller-array-or-row-of-shifts'
+KEY_NPINT = 'C13:sizemults:numpy-integer-multipliers-refused'
+
+
+def angstrom_now():
+    import numericalunits as nu
+    A = float(nu.angstrom)
+    return 1.0 if abs(A - 1.0) < 1e-12 else A
+
+
+def _bits(a):
+    a = np.asarray(a)
+    return (a.dtype.str, a.shape, a.tobytes())
+
+
+def _same_bits(a, b):
+    return _bits(a) == _bits(b)
+
+
+class Ledger(object):
+    """(what, live arrays, snapshots taken at return time, judged then or by the call that follows)"""
+
+    def __init__(self):
+        self.entries = []
+        self.inputs = []
+
+    def add(self, what, arrays, group):
+        arrays = [np.asarray(a) for a in arrays]
+        self.entries.append((what, arrays, [np.array(a, copy=True) for a in arrays], group))
+
+    def add_system(self, what, system, group):
+        arrs = [system.atoms.pos, system.atoms.atype, system.box.vects, system.box.origin, np.asarray(system.pbc)]
+        if 'old_id' in system.atoms.prop():
+            arrs.append(system.atoms.old_id)
+        self.add(what, arrs, group)
+        self.entries[-1] = self.entries[-1] + (tuple(system.symbols), system)
+
+    def drop(self, group):
+        self.entries = [e for e in self.entries if e[3] != group]
+
+    def verify(self, when):
+        for e in self.entries:
+            what, live, snap = e[0], e[1], e[2]
+            for k, (a, b) in enumerate(zip(live, snap)):
+                if not _same_bits(a, b):
+                    diff = ''
+                    if a.shape == b.shape and a.dtype.kind in 'fiu':
+                        with np.errstate(invalid='ignore'):
+                            diff = ' (max change %.3g)' % float(np.nanmax(np.abs(np.asarray(a, dtype=float) - np.asarray(b, dtype=float)))) if a.size else ''
+                    raise Violation('ledger: array %d of %s changed %s%s: it was\n%r\nat return time and is now\n%r'
+                                    % (k, what, when, diff, b[:4], a[:4]))
+            if len(e) > 4:
+                require(tuple(e[5].symbols) == e[4], lambda: 'ledger: symbols of %s changed %s: %r -> %r' % (what, when, e[4], e[5].symbols))
+        # results of different calls (and the object's own cells) do not share memory
+        ent = self.entries
+        for i in range(len(ent)):
+            for j in range(i + 1, len(ent)):
+                if ent[i][3] == ent[j][3]:
+                    continue
+                for a in ent[i][1]:
+                    for b in ent[j][1]:
+                        if a.size and b.size and np.shares_memory(a, b):
+                            raise Violation('ledger: %s and %s share memory (%s)' % (ent[i][0], ent[j][0], when))
+
+
+_INT_DT = {'int8': np.int8, 'int16': np.int16, 'int32': np.int32, 'uint8': np.uint8, 'uint16': np.uint16, 'be': np.dtype('>i4')}
+
+
+def hand(c, name, values, how, round_ok=False):
+    """(the object handed to atomman, the float64 values it stands for).  Forms that cannot hold the values exactly fall back to a
+    wider one (round_ok: the values are first rounded to the narrow float type instead - the rounded values are then THE input).
+    ndarrays and lists are registered: they must be bit-identical after every call (class B)."""
+    if how == 'given':
+        obj = values
+        val = np.array(values, dtype=float)
+    else:
+        val = np.array(values, dtype=float)
+        integral = bool(np.all(val == np.rint(val)))
+        if how in _INT_DT or how == 'bool':
+            if not integral:
+                how = 'array'
+            elif how == 'bool' and not np.all((val == 0) | (val == 1)):
+                how = 'int8'
+            elif how in ('uint8', 'uint16') and val.min() < 0:
+                how = 'int8' if how == 'uint8' else 'int16'
+        if how in ('f32', 'f16'):
+            dt = np.float32 if how == 'f32' else np.float16
+            with np.errstate(over='ignore', under='ignore'):
+                cast = val.astype(dt)
+            fine = bool(np.all(np.isfinite(cast))) and (how == 'f32' or bool(np.all((cast != 0) | (val == 0))))
+            if fine and round_ok and (how == 'f32' or np.all(np.abs(val[val != 0]) > 1e-3)):
+                val = cast.astype(float)
+            if not (fine and np.array_equal(cast.astype(float), val)):
+                how = 'array'
+        if how == 'plain':
+            obj = list(values)
+        elif how == 'tuple':
+            obj = tuple(values) if not isinstance(values, np.ndarray) else tuple(float(x) for x in values)
+        elif how == 'array':
+            obj = np.array(val)
+        elif how in _INT_DT:
+            obj = np.array(np.rint(val), dtype=_INT_DT[how])
+        elif how == 'bool':
+            obj = val.astype(bool)
+        elif how == 'f32':
+            obj = val.astype(np.float32)
+        elif how == 'f16':
+            obj = val.astype(np.float16)
+        elif how == 'readonly':
+            obj = np.array(val)
+            obj.setflags(write=False)
+        elif how == 'strided':
+            buf = np.full(2 * len(val) + 1, np.nan)
+            obj = buf[1::2]
+            obj[:] = val
+        else:
+            raise ValueError('harness: form %r' % (how,))
+    if isinstance(obj, (np.ndarray, list)):
+        c.handed.append([name, obj, np.array(obj, copy=True) if isinstance(obj, np.ndarray) else list(obj)])
+    return obj, val
+
+
+def check_handed(c, when):
+    """B: whatever was handed in is bit-identical after the call"""
+    for name, obj, snap in c.handed:
+        if isinstance(obj, np.ndarray):
+            same = _same_bits(obj, snap)
+        else:
+            same = len(obj) == len(snap) and all(type(a) is type(b) and a == b for a, b in zip(obj, snap))
+        if not same:
+            key = KEY_MUT if name == 'sizemults' and isinstance(obj, list) else None
+            raise Violation('the %s handed in as %s was changed %s: %r -> %r'
+                            % (name, type(obj).__name__ if not isinstance(obj, np.ndarray) else 'ndarray(%s)' % obj.dtype, when, snap, obj), key=key)
+
+
+def junk_handed(c, labels, keep=()):
+    """B: the caller re-uses its arrays / lists for something else.  Read-only arrays cannot be overwritten (skipped); `keep`:
+    names of arguments that have not been handed over yet."""
+    n = 0
+    kept = [item for item in c.handed if item[0] in keep]
+    for item in c.handed:
+        name, obj, snap = item
+        if name in keep:
+            continue
+        if isinstance(obj, np.ndarray):
+            if not obj.flags.writeable:
+                continue
+            if obj.dtype.kind == 'f':
+                obj[...] = np.nan
+            elif obj.dtype.kind == 'b':
+                obj[...] = ~obj
+            else:
+                obj[...] = np.array(snap[::-1] + 1 if snap.ndim == 1 else snap + 1, dtype=float).astype(obj.dtype)
+        else:
+            obj[:] = [None] * len(obj)
+        n += 1
+    c.handed = kept
+    if n:
+        labels.add('mut_inputs')
+
+
+def junk_system(system):
+    """B: the caller overwrites in place a system a call handed out"""
+    system.atoms.pos[...] = np.nan
+    system.atoms.atype[...] = 0
+    if 'old_id' in system.atoms.prop():
+        system.atoms.old_id[...] = -1
+
+
+def make_ucell(am, c, uform, symbols):
+    """the unit cell of the case, stored as the form says (C): single precision Cartesian positions (exact values), Fortran
+    ordered / read-only / strided position input, narrow integer atom types, everything from nested lists"""
+    cart = c.rel @ c.V
+    if uform == 'f32':
+        p32 = cart.astype(np.float32)
+        require(np.array_equal(p32.astype(float), cart), 'harness: unit cell positions are not exact in single precision')
+        cell = am.System(atoms=am.Atoms(pos=p32, atype=c.types.copy()), box=am.Box(vects=c.V.copy()), symbols=symbols)
+        return cell
+    if uform == 'fortran':
+        return am.System(atoms=am.Atoms(pos=np.asfortranarray(c.rel.copy()), atype=c.types.copy()), box=am.Box(vects=np.asfortranarray(c.V.copy())),
+                         scale=True, symbols=symbols)
+    if uform == 'readonly':
+        rel, V = c.rel.copy(), c.V.copy()
+        rel.setflags(write=False); V.setflags(write=False)
+        return am.System(atoms=am.Atoms(pos=rel, atype=c.types.copy()), box=am.Box(vects=V), scale=True, symbols=symbols)
+    if uform == 'strided':
+        buf = np.full((len(c.rel), 6), np.nan)
+        buf[:, ::2] = c.rel
+        return am.System(atoms=am.Atoms(pos=buf[:, ::2], atype=c.types.copy()), box=am.Box(vects=c.V.copy()), scale=True, symbols=symbols)
+    if uform == 'atype_int8':
+        return am.System(atoms=am.Atoms(pos=c.rel.copy(), atype=c.types.astype(np.int8)), box=am.Box(vects=c.V.copy()), scale=True, symbols=symbols)
+    if uform == 'lists':
+        return am.System(atoms=am.Atoms(pos=c.rel.tolist(), atype=c.types.tolist()), box=am.Box(vects=c.V.tolist()), scale=True, symbols=tuple(symbols))
+    return am.System(atoms=am.Atoms(pos=c.rel.copy(), atype=c.types.copy()), box=am.Box(vects=c.V.copy()), scale=True, symbols=symbols)
+
+
+def np_scalar(x, how):
+    """C: a width / cutoff / minimum length as a numpy scalar (float32: the value rounded to single precision IS the input)"""
+    if how == 'np_float64':
+        return np.float64(x)
+    if how == 'np_float32':
+        return np.float32(x)
+    if how == 'array0d':
+        return np.array(float(x))
+    return x
+
+
+def np_int(x, how):
+    """C: a multiplier / index as a numpy integer scalar (unsigned forms only for non-negative values)"""
+    t = {'np_int64': np.int64, 'np_int8': np.int8, 'np_uint8': np.uint8, 'np_int32': np.int32, 'np_int16': np.int16, 'np_intp': np.intp}.get(how)
+    if t is None or (x < 0 and t is np.uint8):
+        return int(x)
+    return t(x)
+
+
 class Ctx(object):
     pass
 
@@ -87,14 +314,17 @@ def _axes(mn):
     return m, n, m_ax, n_ax, np.cross(m_ax, n_ax)
 
 
-def _mn_kwargs(mn):
+def _mn_kwargs(c, mn):
     k = mn['kind']
     if k == 'default':
         return {}
     if k == 'str':
         return {'m': mn['m'], 'n': mn['n']}
+    f = c.forms.get('mn', 'plain')
+    if f != 'plain':
+        return {'m': hand(c, 'm', [int(x) for x in g.AXV[mn['m']]], f)[0], 'n': hand(c, 'n', [int(x) for x in g.AXV[mn['n']]], f)[0]}
     if k == 'vec':
-        return {'m': list(g.AXV[mn['m']]), 'n': np.array(g.AXV[mn['n']])}
+        return {'m': list(g.AXV[mn['m']]), 'n': hand(c, 'n', np.array(g.AXV[mn['n']]), 'given')[0]}
     return {'m': [int(x) for x in g.AXV[mn['m']]], 'n': [int(x) for x in g.AXV[mn['n']]]}
 
 
@@ -117,16 +347,30 @@ def setup(cr):
     S = g.STRUCTS[name]
     # overall length scale of the case (every length below carries it; c.s is also the unit of the oracle's length tolerances)
     c.lk = int(cr.get('lk', 0))
-    c.s = 10.0 ** c.lk
-    c.a = cr['a'] * c.s
-    c.V = g.struct_vects(name, cr.get('coa', 1.633)) * c.a
+    # D: the size of one Angstrom in the working units in force (my own product of numericalunits attributes; 1 in the default
+    # configuration): the case describes a PHYSICAL crystal (numbers in Angstrom x 10^lk), handed to atomman in working units
+    c.uf = angstrom_now()
+    c.s = 10.0 ** c.lk * c.uf
+    c.forms = cr.get('forms') or {}
+    c.handed = []
+    c.ledger = Ledger()
+    a0 = cr['a']
+    uform = c.forms.get('uc', 'plain')
+    if uform == 'f32' and not (name in g.CUBIC_C and c.s == 1.0):
+        uform = 'plain'
+    if uform == 'f32':
+        a0 = max(1, round(a0 * 64)) / 64.0             # every Cartesian coordinate a multiple of a / 4: exact in single precision
+    c.a = a0 * c.s
+    # G: the crystal in a frame turned by a proper signed permutation of the axes (rows of V are the cell vectors)
+    c.Q = g.SIGNED_PERMS[int(cr.get('orient', 0))]
+    c.V = (g.struct_vects(name, cr.get('coa', 1.633)) @ c.Q.T) * c.a
     c.rel = np.array(S[1], dtype=float)
     c.types = np.array(S[2], dtype=int)
     c.setting = S[3]
     c.symbols = tuple(S[5])
     c.natypes = len(S[5])
-    c.ucell = am.System(atoms=am.Atoms(pos=c.rel.copy(), atype=c.types.copy()), box=am.Box(vects=c.V.copy()),
-                        scale=True, symbols=list(S[5]))
+    c.uform = uform
+    c.ucell = make_ucell(am, c, uform, list(S[5]))
     C = cr['C']
     c.ce = int(cr.get('ce', 0))
     cs = 10.0 ** c.ce                       # magnitude of the elastic constants (energy / length^3): the field does not depend on it
@@ -135,10 +379,13 @@ def setup(cr):
     else:
         c.C = am.ElasticConstants(C11=C['C11'] * cs, C12=C['C12'] * cs, C44=C['C44'] * cs)
     b3, xi3, hkl3 = np.array(cr['b'], dtype=float), np.array(cr['xi'], dtype=float), np.array(cr['hkl'], dtype=float)
+    mil = c.forms.get('mil', 'plain')
     if cr.get('hex4'):
-        c.args = (g.vec3to4(cr['b']), _int4(cr['xi']), g.plane3to4(cr['hkl']))
+        c.args = (hand(c, 'burgers', g.vec3to4(cr['b']), 'array' if mil != 'plain' else 'plain')[0],
+                  hand(c, 'xi_uvw', _int4(cr['xi']), mil)[0], hand(c, 'slip_hkl', g.plane3to4(cr['hkl']), mil)[0])
     else:
-        c.args = (list(cr['b']), list(cr['xi']), list(cr['hkl']))
+        c.args = (hand(c, 'burgers', list(cr['b']), mil)[0], hand(c, 'xi_uvw', list(cr['xi']), mil)[0],
+                  hand(c, 'slip_hkl', list(cr['hkl']), mil)[0])
     # Cartesian Burgers vector, line direction, plane normal in the unit cell's frame
     c.b_old = b3 @ c.V
     xi_c = xi3 @ c.V
@@ -158,7 +405,17 @@ def setup(cr):
     c.character = 'screw' if min(ang, 180 - ang) < 1e-6 else 'edge' if abs(ang - 90) < 1e-6 else 'mixed'
     c.bmag = float(np.linalg.norm(c.b))
     c.kw = dict(conventional_setting=c.setting)
-    c.kw.update(_mn_kwargs(cr['mn']))
+    c.kw.update(_mn_kwargs(c, cr['mn']))
+    # the same arguments once more as plain Python objects (for objects built after the caller overwrote its arrays)
+    if cr.get('hex4'):
+        c.args0 = (g.vec3to4(cr['b']), _int4(cr['xi']), g.plane3to4(cr['hkl']))
+    else:
+        c.args0 = (list(cr['b']), list(cr['xi']), list(cr['hkl']))
+    c.kw0 = dict(conventional_setting=c.setting)
+    if cr['mn']['kind'] != 'default':
+        c.kw0.update(m=cr['mn']['m'], n=cr['mn']['n'])
+    c.near_used = set()
+    c.lm = {}
     return c
 
 
@@ -180,7 +437,46 @@ def labels_of(c):
             labs.add('nt_scaled')
     if c.ce:
         labs.add('C_magnitude_scaled')
+    # C: forms
+    f = c.forms
+    narrow = [k for k in ('mil', 'mn', 'sh', 'cen', 'sm', 'si', 'sc') if f.get(k, 'plain') != 'plain']
+    if narrow or c.uform != 'plain':
+        labs.add('forms')
+        for k in narrow:
+            labs.add('form_' + k)
+        if any(f.get(k) in ('int8', 'int16', 'int32', 'uint8', 'uint16', 'be', 'bool', 'f32', 'f16') for k in ('mil', 'mn', 'sh', 'cen')) \
+                or f.get('sm', 'plain') != 'plain' or f.get('si', 'plain') != 'plain' or f.get('sc') == 'np_float32':
+            labs.add('narrow')
+        if c.uform != 'plain':
+            labs.add('ucell_' + c.uform)
+    # G: frame of the unit cell
+    if int(cr.get('orient', 0)):
+        labs.add('oriented')
+        if np.any(np.diag(c.Q) < 0) and np.count_nonzero(c.Q - np.diag(np.diag(c.Q))) == 0:
+            labs.add('oriented_diagonal_negative')
+    if c.uf != 1.0:
+        labs.add('units_A_gt1' if c.uf > 1 else 'units_A_ge1e-3' if c.uf >= 1e-3 else 'units_A_lt1e-3')
     return labs
+
+
+def class_labels(c, case, labels):
+    """labels of the E / G classes of a monopole / array case, once the calls have been made"""
+    nr = case.get('near')
+    if nr:
+        labels.add('near')
+        for k in ('plane', 'face', 'cen'):
+            if k in nr:
+                labels.add('near_' + k)
+    for k in c.near_used:
+        labels.add(k if k in ('int_limit', 'default_sizemults') else 'near_' + k)
+    if c.near_used & {'bd', 'min'}:
+        labels.add('near')
+
+    def exact(sp):
+        return sp and sp.get('kind') in ('vec', 'vecscaled', 'vec_call') and any(abs(x) in (0.5, 0.25, 0.125) for x in sp.get('inplane', []))
+    h = case.get('hist')
+    if exact(h['call'] if h else c.cr['shift']) or (case['center']['kind'] in ('abs', 'scaled') and abs(case['center']['m']) in (0.125, 0.0625, 0.25)):
+        labels.add('halves')
 
 
 def planes_of(c, pos, shift):
@@ -201,8 +497,8 @@ def gap_at_zero(c, pos, shift):
     P = c.P
     y = np.where(y > P / 2, y - P, y)
     y = np.sort(np.concatenate((y, y + P, y - P)))
-    above = y[y > 1e-7 * c.s]
-    below = y[y < -1e-7 * c.s]
+    above = y[y > 1e-9 * c.s]
+    below = y[y < -1e-9 * c.s]
     return float(above.min()), float(below.max())
 
 
@@ -236,6 +532,8 @@ def build(c):
                             % (c.a, type(e).__name__, e), key=KEY_TOL)
         raise
     c.d = d0
+    c.d0 = d0
+    check_handed(c, 'by Dislocation(...)')
     check_frame(c, d0)
     rv = np.array(d0.rcell.box.vects, dtype=float)
     c.rvects = rv
@@ -258,33 +556,45 @@ def build(c):
         c.shift = shifts[i]
         if sh['index'] < 0:
             i -= c.nshifts
+        ii = np_int(i, c.forms.get('si', 'plain'))
         if kind == 'index':
-            c.d = am.defect.Dislocation(c.ucell, c.C, b, xi, hkl, shiftindex=int(i), **c.kw)
+            c.d = am.defect.Dislocation(c.ucell, c.C, b, xi, hkl, shiftindex=ii, **c.kw)
         else:
-            c.callshift = {'shiftindex': int(i)}
+            c.callshift = {'shiftindex': ii}
     else:
         i = sh['index'] % c.nshifts
         ya, yb = gap_at_zero(c, np.array(d0.rcell.atoms.pos), shifts[i])
         hh = (ya - yb) / 2
         vec = (shifts[i] + sh['inplane'][0] * rv[c.line] + sh['inplane'][1] * rv[c.motion]
                + sh['normal'] * hh * c.n_ax)
-        c.shift = vec
+        how = c.forms.get('sh', 'plain')
         if kind == 'vecscaled':
-            relv = np.linalg.solve(rv.T, vec)
-            c.d = am.defect.Dislocation(c.ucell, c.C, b, xi, hkl, shift=relv.tolist(), shiftscale=True, **c.kw)
+            obj, relv = hand(c, 'shift', np.linalg.solve(rv.T, vec).tolist(), how, round_ok=True)
+            c.shift = relv @ rv
+            c.d = am.defect.Dislocation(c.ucell, c.C, b, xi, hkl, shift=obj, shiftscale=True, **c.kw)
         elif kind == 'vec':
-            c.d = am.defect.Dislocation(c.ucell, c.C, b, xi, hkl, shift=vec.tolist(), **c.kw)
+            obj, c.shift = hand(c, 'shift', vec.tolist(), how, round_ok=True)
+            c.d = am.defect.Dislocation(c.ucell, c.C, b, xi, hkl, shift=obj, **c.kw)
         else:
-            c.callshift = {'shift': vec}
+            obj, c.shift = hand(c, 'shift of the coming call', vec, 'given' if how == 'plain' else how, round_ok=True)
+            c.callshift = {'shift': obj}
+        check_handed(c, 'by Dislocation(..., shift=...)')
+    # A: what the object hands out about itself, kept for the whole case
+    for dd, nm in ((d0, 'first object'), (c.d, 'object')) if c.d is not d0 else ((d0, 'object'),):
+        c.ledger.add('.shifts / .uvws / .transform / rcell of the ' + nm,
+                     [dd.shifts, dd.uvws, dd.transform, dd.rcell.atoms.pos, dd.rcell.atoms.atype, dd.rcell.box.vects, dd.rcell.box.origin,
+                      dd.dislsol.burgers, dd.dislsol.m, dd.dislsol.n], 'ctor ' + nm)
     return c.d
 
 
 FIRSTCAP = 800      # atoms in the configuration of an earlier (unjudged) call of a history
 
 
-def _as(vec, how):
-    vec = [float(x) for x in vec]
-    return np.array(vec) if how == 'array' else tuple(vec) if how == 'tuple' else vec
+def _as(c, vec, how):
+    """(object handed in, the vector it stands for): container of the shift spec, overridden by the form of the case (C)"""
+    f = c.forms.get('sh', 'plain')
+    how = f if f != 'plain' else (how if how in ('array', 'tuple') else 'plain')
+    return hand(c, 'shift', [float(x) for x in vec], how, round_ok=True)
 
 
 def resolve_callshift(c, spec, gen, cen):
@@ -296,20 +606,23 @@ def resolve_callshift(c, spec, gen, cen):
     if k == 'keep':
         return None, {}, 'keep'
     if k == 'index0':
-        return shifts[0], {'shiftindex': 0}, 'index'
+        return shifts[0], {'shiftindex': np_int(0, c.forms.get('si', 'plain'))}, 'index'
     if k == 'index':
         i = spec['index'] % n
         vec = shifts[i]
         if spec['index'] < 0:
             i -= n
-        return vec, {'shiftindex': int(i)}, 'index'
+        return vec, {'shiftindex': np_int(int(i), c.forms.get('si', 'plain'))}, 'index'
     if k == 'zero':
         # the all-zero vector leaves an atomic plane on y = 0.  periodicarray answers with its documented refusal (so only half
         # of the draws are spent on it); monopole is defined when the centre moves the cut plane off that atomic plane
         # (resolve_center keeps it short of the next one).  Otherwise: the explicit vector equal to one of .shifts
         if (gen == 'periodicarray' and spec['index'] % 2 == 0) or (gen == 'monopole' and cen['kind'] in ('abs', 'scaled') and abs(cen['n']) >= 0.05):
             v = spec['variant']
+            fi = c.forms.get('cen', 'plain')
             kw = {'shift': [0, 0, 0] if v == 'int' else np.zeros(3) if v == 'array' else [0.0, 0.0, 0.0]}
+            if v == 'int' and fi in _INT_DT:
+                kw['shift'] = hand(c, 'shift', [0, 0, 0], fi)[0]
             if v == 'scaled':
                 kw['shiftscale'] = True
             return np.zeros(3), kw, 'zero'
@@ -320,17 +633,78 @@ def resolve_callshift(c, spec, gen, cen):
     vec = (shifts[i] + spec['inplane'][0] * rv[c.line] + spec['inplane'][1] * rv[c.motion]
            + spec['normal'] * (ya - yb) / 2 * c.n_ax)
     if k == 'vecscaled':
-        return vec, {'shift': _as(np.linalg.solve(rv.T, vec), spec.get('as')), 'shiftscale': True}, 'vecscaled'
-    return vec, {'shift': _as(vec, spec.get('as'))}, 'vec'
+        obj, relv = _as(c, np.linalg.solve(rv.T, vec), spec.get('as'))
+        return relv @ rv, {'shift': obj, 'shiftscale': True}, 'vecscaled'
+    obj, vec = _as(c, vec, spec.get('as'))
+    return vec, {'shift': obj}, 'vec'
+
+
+def after_ctor(c, case, labels):
+    """B: once the object is built the caller re-uses the arrays / lists it handed to the constructor"""
+    lm = case.get('lm') or {}
+    c.lm = lm
+    if lm.get('mut_in'):
+        junk_handed(c, labels, keep=('shift of the coming call',))
+        if not c.callshift:
+            probe_shift_alias(c, 'after the arrays handed to Dislocation(...) were overwritten by the caller')
+    # (the unit cell and the ElasticConstants object are not overwritten: the object keeps the caller's cell by reference and
+    # hands it back as .ucell, "the reference conventional unit cell" - boundaryscale reads its box at call time; what a solved
+    # solution does when C is re-defined is C12's history clause)
+
+
+def probe_shift_alias(c, when):
+    got = np.asarray(c.d.shift, dtype=float)
+    ok = got.shape == (3,) and np.all(np.isfinite(got)) and np.abs(got - c.shift).max() <= 1e-9 * (c.s + np.abs(c.shift).max())
+    require(ok, lambda: 'attribute shift = %r %s; the shift that was set is %r (set_shift keeps the caller\'s array instead of a copy)'
+            % (c.d.shift, when, np.asarray(c.shift).tolist()), key=KEY_ALIAS)
+
+
+def after_call(c, labels, when, results=None, group=None):
+    """A / B bookkeeping after a generator call: arguments untouched; the caller then overwrites them (mut_in); the systems handed
+    out are overwritten (mut_out, earlier calls only) or entered in the ledger"""
+    check_handed(c, 'by ' + when)
+    lm = c.lm
+    if lm.get('mut_in'):
+        junk_handed(c, labels)
+        probe_shift_alias(c, 'after the arrays handed to %s were overwritten by the caller' % when)
+    else:
+        c.handed = []
+    if results is None:
+        return
+    base, disl = results
+    if group != 'judged' and lm.get('mut_out'):
+        junk_system(base)
+        junk_system(disl)
+        labels.add('mut_outputs')
+    else:
+        c.ledger.add_system('base system returned by ' + when, base, group)
+        c.ledger.add_system('dislocation system returned by ' + when, disl, group + "'")
+        labels.add('ledger_' + group)
+
+
+def overwrite_shift_attribute(c, labels):
+    """B: the caller writes into the array .shift handed out (and then names the shift of the next call explicitly): the table
+    .shifts must not move"""
+    d = c.d
+    arr = d.shift
+    if not (isinstance(arr, np.ndarray) and arr.flags.writeable):
+        return
+    before = np.array(d.shifts, dtype=float, copy=True)
+    arr[...] = np.nan
+    now = np.array(d.shifts, dtype=float)
+    require(_same_bits(before, now), lambda: '.shifts changed from %r to %r when the caller overwrote the array handed out as .shift '
+            '(set_shift(shiftindex=i) hands out a view of row i of .shifts)' % (before.tolist(), now.tolist()), key=KEY_ALIAS)
+    labels.add('mut_shift_attribute')
 
 
 def apply_history(c, case, gen, labels):
     """History of the ONE Dislocation object c.d (built by build() with the shift option given at initialisation) up to the
     judged call of `gen`: an optional earlier generator call with its own arguments, then the shift choice of the judged call.
     Leaves c.shift (the shift the judged call asks for) and c.callshift (its keyword arguments)."""
+    after_ctor(c, case, labels)
     h = case.get('hist')
     if not h:
-        if c.callshift.get('shiftindex') == 0:
+        if c.callshift.get('shiftindex') is not None and int(c.callshift['shiftindex']) == 0:
             labels.add('explicit_shiftindex0')
         return
     d = c.d
@@ -346,6 +720,7 @@ def apply_history(c, case, gen, labels):
             r = run_monopole(c, f, cap=FIRSTCAP)
         else:
             r = run_array(c, f, set(), cap=FIRSTCAP)
+        after_call(c, labels, 'the earlier %s() call' % f['gen'], None if r is None else (r['base'], r['disl']), 'first')
         labels.add('history_second_call')
         labels.add('history_first_' + ('refused' if r is None else f['gen']))
         labels.add('history_first_shift_' + tag)
@@ -361,6 +736,8 @@ def apply_history(c, case, gen, labels):
         require(np.abs(np.asarray(d.shift, dtype=float) - current).max() <= 1e-9 * (c.s + np.abs(current).max()),
                 lambda: 'attribute shift = %r before a call without shift arguments, last set %r' % (d.shift, current))
         return
+    if c.lm.get('mut_shift'):
+        overwrite_shift_attribute(c, labels)
     c.shift = vec
     labels.add('call_shift_' + tag)
     differs = np.abs(vec - current).max() > 1e-6 * c.s
@@ -369,12 +746,53 @@ def apply_history(c, case, gen, labels):
             labels.add('history_shift_changes')
     elif c.cr['shift']['kind'] != 'default' and np.abs(vec - ctor).max() > 1e-6 * c.s:
         labels.add('history_ctor_shift_differs')
-    if kw.get('shiftindex') == 0:
+    if kw.get('shiftindex') is not None and int(kw['shiftindex']) == 0:
         labels.add('explicit_shiftindex0')
         if np.abs(current - shifts0).max() > 1e-6 * c.s:
             labels.add('explicit_shiftindex0_stale')
     if tag == 'zero':
         labels.add('explicit_zero_shift')
+
+
+def later_calls(c, case, r, labels):
+    """A: once the judged call has been judged, later calls are made - on the same object, on another Dislocation object of the
+    same crystal - and everything handed out earlier (by the constructor, by an earlier call, by the judged call) must still be,
+    bit for bit, what it was at return time"""
+    lm = c.lm
+    c.ledger.verify('by the calls of the history')
+    what = lm.get('after', 'none')
+    if what == 'none':
+        if len([e for e in c.ledger.entries if e[3].startswith('first')]):
+            labels.add('ledger')
+        return
+    am = c.am
+    kw = {}
+    if lm.get('same_size') and r is not None:
+        kw = {k: v for k, v in r['kw'].items() if k in ('sizemults', 'amin', 'bmin', 'cmin')}
+        if not isinstance(kw.get('sizemults', []), (list, tuple)) or any(not isinstance(x, int) for x in kw.get('sizemults', [])):
+            kw['sizemults'] = [int(x) for x in r['exp']]
+        labels.add('ledger_same_size')
+    targets = []
+    if what in ('same', 'both'):
+        targets.append((c.d, 'the same object'))
+    if what in ('other', 'both'):
+        other = c.d0 if c.d0 is not c.d else am.defect.Dislocation(c.ucell, c.C, *c.args0, shiftindex=1 % c.nshifts, **c.kw0)
+        targets.append((other, 'another Dislocation object'))
+        labels.add('ledger_other_object')
+    for obj, nm in targets:
+        fn = getattr(obj, lm.get('gen', 'monopole'))
+        try:
+            res = fn(shiftindex=0, return_base_system=True, **kw)
+        except ValueError as e:
+            if not any(text in str(e) for _, text in REFUSALS):
+                raise
+            res = None
+        if res is not None:
+            c.ledger.add_system('base system of a later call on ' + nm, res[0], 'later ' + nm)
+            c.ledger.add_system('dislocation system of a later call on ' + nm, res[1], 'later ' + nm + "'")
+        c.ledger.verify('by a later %s() call on %s' % (lm.get('gen', 'monopole'), nm))
+    labels.add('ledger')
+    labels.add('ledger_later_calls')
 
 
 def check_shift_attribute(c, d, when):
@@ -463,9 +881,13 @@ def crystal_problems(c, pos, atype, shift, tol=1e-6):
 
 def resolve_sizes(c, size, cap=CAP, min_motion=0.0):
     """multipliers passed, multipliers expected after the a/b/cmin rule, keyword arguments.  `min_motion`: smallest
-    system length along m (periodic arrays need |b.m| |b| / 2L well below the duplicate cutoff, see run_array)"""
+    system length along m (periodic arrays need |b.m| |b| / 2L well below the duplicate cutoff, see run_array).
+    size['min'] one minimum length, size['mins'] several (H), size['min_near'] one a relative 1e-12 .. 1e-3 above / below a whole
+    number of cells (E), size['default'] no sizemults argument where the documented default (2, 2 and 1 along the line) will do"""
     k = [0, 0, 0]
     k[c.line], k[c.motion], k[c.cut] = size['line'], size['motion'], size['cut']
+    if size.get('default'):
+        k[c.line], k[c.motion], k[c.cut] = 1, 2, 2
     n0 = c.d.rcell.natoms
     wm = abs(float(c.rvects[c.motion] @ c.m_ax))
     kmin = 2
@@ -486,42 +908,91 @@ def resolve_sizes(c, size, cap=CAP, min_motion=0.0):
             break
     exp = list(k)
     kw = {}
-    if 'min' in size:
-        idx = 'abc'.index(size['min'][0])
+    sform = c.forms.get('sc', 'plain')
+    mins = ([size['min']] if 'min' in size else []) + list(size.get('mins', []))
+    for axis, v in mins:
+        idx = 'abc'.index(axis)
         L = float(np.linalg.norm(c.rvects[idx]))
-        val = float(size['min'][1]) * c.s
+        val = float(v) * c.s
+        if sform == 'np_float32':
+            val = float(np.float32(val))
         mult = int(math.ceil(val / L))
         if idx != c.line and mult % 2 == 1:
             mult += 1
         trial = list(exp)
         trial[idx] = max(trial[idx], mult)
         # keep clear of the rounding edge of ceil() and of the atom cap
-        if abs(val / L - round(val / L)) > 1e-6 and total(trial) <= cap:
+        if abs(val / L - round(val / L)) > 1e-6 and total(trial) <= cap and val > 0:
             exp = trial
-            kw[size['min'][0] + 'min'] = val
-    kw['sizemults'] = tuple(k) if size.get('tuple') else list(k)
+            kw[axis + 'min'] = np_scalar(val, sform)
+    nr = size.get('min_near')
+    if nr and (nr['axis'] + 'min') not in kw:
+        # E: a minimum length a hair above / below kk cells: "minimum thickness" - above needs one more cell, below does not
+        idx = 'abc'.index(nr['axis'])
+        L = float(np.linalg.norm(c.rvects[idx]))
+        kk = int(nr['k'])
+        val = kk * L * (1.0 + nr['e'])
+        mult = kk + 1 if nr['e'] > 0 else kk
+        if idx != c.line and mult % 2 == 1:
+            mult += 1
+        trial = list(exp)
+        trial[idx] = max(trial[idx], mult)
+        if total(trial) <= cap and abs(nr['e']) >= 1e-12:
+            exp = trial
+            kw[nr['axis'] + 'min'] = val
+            c.near_used.add('min')
+    if size.get('default') and k == [1 if i == c.line else 2 for i in range(3)]:
+        c.near_used.add('default_sizemults')
+        return k, exp, kw
+    smf = c.forms.get('sm', 'plain')
+    if smf in ('array', 'array_int16'):
+        kw['sizemults'] = hand(c, 'sizemults', np.array(k, dtype=np.int16 if smf == 'array_int16' else np.int64), 'given')[0]
+    else:
+        kk = [np_int(x, smf) for x in k]
+        kw['sizemults'] = tuple(kk) if size.get('tuple') else hand(c, 'sizemults', kk, 'plain')[0]
     return k, exp, kw
+
+
+INT_LIMITS = {'int8': (-128, 127), 'int16': (-32768, 32767), 'int32': (-2 ** 31, 2 ** 31 - 1), 'be': (-2 ** 31, 2 ** 31 - 1),
+              'uint8': (0, 255), 'uint16': (0, 65535)}
 
 
 def resolve_center(c, cen, base_vects):
     """Cartesian centre and keyword arguments"""
     k = cen['kind']
+    form = c.forms.get('cen', 'plain')
     if k == 'none':
         return np.zeros(3), {}
     if k == 'int':
-        # integer typed Cartesian centre: whole units x the length scale when that is a whole number (10^k, k >= 0), else the
-        # integer zero vector (whole working units are 10^-k lattice parameters away)
-        vec = (cen['m'] * c.m_ax + cen['l'] * c.xi_ax) * (10 ** c.lk if c.lk >= 0 else 0)
-        return vec.astype(float), {'center': [int(round(x)) for x in vec]}
+        # integer typed Cartesian centre: whole units x the length scale when that is a whole number (10^k, k >= 0, default working
+        # units), else the integer zero vector (whole working units are 10^-k lattice parameters away)
+        whole = c.lk >= 0 and c.uf == 1.0
+        vec = (cen['m'] * c.m_ax + cen['l'] * c.xi_ax) * (10 ** c.lk if whole else 0)
+        vals = [int(round(x)) for x in vec]
+        if form not in INT_LIMITS and form not in ('plain', 'tuple', 'array', 'readonly', 'strided'):
+            form = 'plain'
+        big = c.forms.get('big', 0)
+        if whole and c.lk == 0 and big in (1, 2):
+            # C: the component along the line (on which nothing depends) at the limit of the integer type
+            lo, hi = INT_LIMITS.get(form, (-10 ** 6, 10 ** 6))
+            vals[c.line] = hi if big == 1 or lo == 0 else lo
+            c.near_used.add('int_limit')
+        obj, val = hand(c, 'center', vals, form)
+        return val, {'center': obj}
     W = abs(float(base_vects[c.motion] @ c.m_ax))
     ya, yb = gap_at_zero(c, np.array(c.d.rcell.atoms.pos), c.shift)
     room = min(ya, -yb)
     # the cut plane y = c_n stays strictly between the two planes adjoining y = 0
     vec = cen['m'] * W * c.m_ax + cen['n'] * room * c.n_ax + cen['l'] * float(np.linalg.norm(c.rvects[c.line])) * c.xi_ax
+    if form in INT_LIMITS or form == 'bool':
+        form = 'array'
+    if abs(cen['n']) > 0.5:
+        form = form if form in ('plain', 'tuple', 'array', 'readonly', 'strided') else 'array'      # E: no rounding of a near value
     if k == 'scaled':
-        relv = np.linalg.solve(c.rvects.T, vec)
-        return vec, {'center': relv, 'centerscale': True}
-    return vec, {'center': vec.tolist()}
+        obj, relv = hand(c, 'center', np.linalg.solve(c.rvects.T, vec), form if form != 'plain' else 'given', round_ok=True)
+        return relv @ c.rvects, {'center': obj, 'centerscale': True}
+    obj, vec = hand(c, 'center', vec.tolist(), form, round_ok=True)
+    return vec, {'center': obj}
 
 
 def expected_box(c, mults):
@@ -563,6 +1034,11 @@ def call_generator(c, fn, kw):
     try:
         return fn(**kw)
     except TypeError as e:
+        sm = kw.get('sizemults')
+        if sm is not None and 'Invalid sizemults' in str(e) and any(isinstance(x, np.integer) for x in sm) \
+                and all(int(x) > 0 for x in sm) and all(int(sm[i]) % 2 == 0 for i in range(3) if i != c.line):
+            raise Violation('%s(sizemults=%r) raised TypeError(%s): numpy integers are positive integers too (System.supersize '
+                            'takes them)' % (fn.__name__, sm, e), key=KEY_NPINT)
         if isinstance(kw.get('sizemults'), tuple) and TUPLE_MSG in str(e):
             raise Violation('%s(sizemults=%r) (the documented type is tuple) raised TypeError: %s' % (fn.__name__, kw['sizemults'], e),
                             key=KEY_TUPLE)
@@ -581,11 +1057,59 @@ def reduce_mod(delta, periods):
     return delta - k @ A, k
 
 
+# ----------------------------------------------------------------------------- D: working-unit plans
+
+def with_units(case, fn):
+    """fn(case, out) under the unit plan of the case: first under plan['pre'] (same process, same oracles), then under plan['W'];
+    the outcomes (configuration or which refusal, atom counts, deleted atoms) must agree - it is the same physical system.  The
+    default working units are ALWAYS restored (the cases of a shard share the process)."""
+    plan = case.get('units')
+    if not plan:
+        return fn(case, {})
+    import atomman.unitconvert as uc
+    try:
+        out0 = None
+        if plan['pre'] is not None:
+            g.apply_units(uc, plan['pre'])
+            out0 = {}
+            try:
+                fn(case, out0)
+            except Violation as v:
+                raise Violation('%s [under %s]' % (v.detail, g.cfg_text(plan['pre'])), key=v.key) from None
+        g.apply_units(uc, plan['W'])
+        out = {}
+        note = ', after the same history under %s in the same process' % g.cfg_text(plan['pre']) if plan['pre'] is not None else ''
+        try:
+            labels = set(fn(case, out))
+        except Violation as v:
+            raise Violation('%s [under %s%s]' % (v.detail, g.cfg_text(plan['W']), note), key=v.key) from None
+        labels |= {'units', 'units_' + plan['W']['kind']}
+        if out0 is not None:
+            labels.add('units_pre')
+            labels.add('units_pre_default' if plan['pre'] == g.DEFAULT_CFG else 'units_pre_other')
+            for key in ('kind', 'natoms', 'nrem'):           # (which atom of a duplicate pair goes is decided by rounding)
+                require(out0.get(key) == out.get(key),
+                        lambda: 'the same physical history gives %s = %s under %s (one Angstrom = %.6g working units) and %s under %s (%.6g)'
+                        % (key, _short(out0.get(key)), g.cfg_text(plan['pre']), out0.get('s', float('nan')), _short(out.get(key)),
+                           g.cfg_text(plan['W']), out.get('s', float('nan'))))
+        return labels
+    finally:
+        g.restore_units(uc)
+
+
+def _short(x):
+    t = repr(x)
+    return t if len(t) < 200 else t[:200] + '...'
+
+
 # ----------------------------------------------------------------------------- reference
 
 @st.composite
 def reference_cases(draw):
-    return {'disl': draw(g.dislocations()), 'size': draw(g.sizes())}
+    cs = {'disl': draw(g.dislocations()), 'size': draw(g.sizes()), 'units': draw(g._PLANS)}
+    if cs['units']:
+        cs['disl']['lk'] = 0
+    return cs
 
 
 def check_shifts(c, d):
@@ -610,6 +1134,10 @@ def check_shifts(c, d):
 
 
 def oracle_reference(case):
+    return with_units(case, _oracle_reference)
+
+
+def _oracle_reference(case, out):
     c = setup(case['disl'])
     labels = labels_of(c)
     d = build(c)
@@ -652,9 +1180,12 @@ def oracle_reference(case):
             lambda: 'shift after the call = %r, requested %r' % (d.shift, c.shift))
     check_reference(c, base, exp)
     require(d.base_system is base and d.disl_system is disl, 'base_system / disl_system attributes are not the returned systems')
+    check_handed(c, 'by monopole()')
+    c.ledger.verify('by monopole()')            # A: what the object handed out about itself at construction
+    out.update(kind='reference', natoms=int(base.natoms))
     if exp != k:
         labels.add('min_raised_mult')
-    if isinstance(kw['sizemults'], tuple):
+    if isinstance(kw.get('sizemults'), tuple):
         labels.add('tuple')
     return labels
 
@@ -665,11 +1196,45 @@ _hist_monopole, _hist_array = g.histories('monopole'), g.histories('periodicarra
 _disl_fresh, _disl_hist = g.dislocations(partial_share=True), g.dislocations(partial_share=True, ctor_shift_only=True)
 
 
+def with_classes(draw, cs):
+    """the A / B / D / E choices of a monopole / array case (gens_c13: afters, unit_plans, nears).  The near-threshold values are
+    written into the specs of the JUDGED call: its shift becomes an explicit vector with an atomic plane a relative 1e-8 .. 1e-3
+    (of half the plane spacing) off the slip plane and / or an atom a relative 1e-12 .. 1e-3 (of the rotated cell) off a box face;
+    the boundary width, a minimum length, the centre likewise."""
+    cs['lm'] = draw(g._AFTERS)
+    cs['units'] = draw(g._PLANS)
+    nr = draw(g._NEARS)
+    if cs['units']:
+        cs['disl']['lk'] = 0
+    if not nr:
+        return cs
+    cs['near'] = nr
+    if 'plane' in nr or 'face' in nr:
+        spec = {'kind': 'vecscaled' if nr['scaled'] else 'vec', 'index': nr['index'], 'as': nr['as'],
+                'inplane': [float(x) for x in nr.get('face', [0.0, 0.0])], 'normal': float(nr.get('plane', 0.0))}
+        if cs['hist']:
+            cs['hist']['call'] = spec
+        else:
+            if not nr['scaled'] and nr['index'] % 2:
+                spec['kind'] = 'vec_call'
+            cs['disl']['shift'] = spec
+    if 'bd' in nr:
+        cs['boundary']['near'] = nr['bd']
+        cs['boundary']['width'] = max(cs['boundary']['width'], 1.0)
+    if 'min' in nr:
+        cs['size'].pop('min', None)
+        cs['size']['min_near'] = nr['min']
+    if 'cen' in nr:
+        cs['center'] = {'kind': 'scaled' if nr['scaled'] else 'abs', 'm': cs['center'].get('m', 0.0) if cs['center']['kind'] in ('abs', 'scaled') else 0.05,
+                        'n': float(nr['cen']), 'l': 0.25}
+    return cs
+
+
 @st.composite
 def monopole_cases(draw):
     h = draw(_hist_monopole)
-    return {'disl': draw(_disl_hist if h else _disl_fresh), 'size': draw(g.sizes()), 'center': draw(g.centers()),
-            'boundary': draw(g.boundaries()), 'hist': h}
+    return with_classes(draw, {'disl': draw(_disl_hist if h else _disl_fresh), 'size': draw(g.sizes()), 'center': draw(g.centers()),
+                               'boundary': draw(g.boundaries()), 'hist': h})
 
 
 def face_distances(c, vects, origin, pos):
@@ -693,14 +1258,30 @@ def boundary_setup(c, bd, vects, origin):
     fd = face_distances(c, vects, origin, np.zeros((1, 3)))
     half = min(min(float(dist[0]), h - float(dist[0])) for dist, h, _ in fd)
     w = min(float(bd['width']) * c.s, round(0.9 * half / c.s, 6) * c.s)
+    sform = c.forms.get('sc', 'plain')
+    nr = bd.get('near')
+    if nr:
+        # E: the surface of the boundary region a relative 1e-12 .. 1e-3 (of the length unit) off an atomic plane parallel to the
+        # slip plane, counted from the lower face across the slip plane
+        ylo = min(float(origin @ c.n_ax), float((origin + vects[c.cut]) @ c.n_ax))
+        yp = np.sort((planes_of(c, np.array(c.d.rcell.atoms.pos, dtype=float), c.shift) - ylo) % c.P)
+        yp = yp[yp > 1e-3 * c.s]
+        if len(yp):
+            wn = float(yp[nr['plane'] % len(yp)]) + nr['e'] * c.s
+            if 0 < wn < 0.9 * half:
+                w = wn
+                sform = 'plain'
+                c.near_used.add('bd')
     kw = {'boundaryshape': bd['shape']}
     if w > 0:
         if bd['scale']:
-            kw['boundarywidth'] = w / a_len
+            kw['boundarywidth'] = np_scalar(w / a_len, sform if sform != 'np_float32' else 'np_float64')
             kw['boundaryscale'] = True
-            w = kw['boundarywidth'] * a_len
+            w = float(kw['boundarywidth']) * a_len
         else:
-            kw['boundarywidth'] = w
+            if sform == 'np_float32':
+                w = float(np.float32(w))
+            kw['boundarywidth'] = np_scalar(w, sform)
     return w, kw
 
 
@@ -741,13 +1322,20 @@ def run_monopole(c, case, cap=CAP):
 
 
 def oracle_monopole(case):
+    return with_units(case, _oracle_monopole)
+
+
+def _oracle_monopole(case, out):
     c = setup(case['disl'])
     labels = labels_of(c)
     d = build(c)
     if d is None:
+        out['kind'] = 'solver_refused'
         return labels | {'solver_refused'}
     apply_history(c, case, 'monopole', labels)
     r = run_monopole(c, case)
+    after_call(c, labels, 'the judged monopole() call', (r['base'], r['disl']), 'judged')
+    out.update(kind='monopole', natoms=int(r['disl'].natoms), s=c.s)
     base, disl, kw, exp, k = r['base'], r['disl'], r['kw'], r['exp'], r['k']
     vects, origin, center, w = r['vects'], r['origin'], r['center'], r['w']
     check_shift_attribute(c, d, 'after monopole()')
@@ -807,10 +1395,12 @@ def oracle_monopole(case):
         require(tuple(disl.symbols) == c.symbols, lambda: 'symbols %r' % (disl.symbols,))
     require(d.base_system is base and d.disl_system is disl, 'base_system / disl_system attributes are not the returned systems')
     labels.add('center_' + case['center']['kind'])
-    if isinstance(kw['sizemults'], tuple):
+    if isinstance(kw.get('sizemults'), tuple):
         labels.add('tuple')
     if exp != k:
         labels.add('min_raised_mult')
+    later_calls(c, case, r, labels)
+    class_labels(c, case, labels)
     return labels
 
 
@@ -825,7 +1415,7 @@ def array_cases(draw):
     cs = {'disl': draw(_disl_hist if h else _disl_fresh), 'size': draw(g.sizes()), 'center': draw(g.centers()),
           'boundary': draw(g.boundaries(shapes=('box',))), 'linear': draw(st.integers(0, 2)) == 0, 'cutoff': draw(_cutoff),
           'hist': h}
-    return cs
+    return with_classes(draw, cs)
 
 
 REFUSALS = (('onplane', 'atom positions found on slip plane'),
@@ -889,7 +1479,10 @@ def run_array(c, case, labels, cap=CAP):
     if case.get('linear'):
         kw['linear'] = True
     if case.get('cutoff') is not None or c.lk:
-        kw['cutoff'] = cutoff
+        sform = c.forms.get('sc', 'plain')
+        if sform == 'np_float32':
+            cutoff = float(np.float32(cutoff))
+        kw['cutoff'] = np_scalar(cutoff, sform)
     kw['return_base_system'] = True
     L = abs(float(vects[c.motion] @ c.m_ax))
     nfull = c.d.rcell.natoms * exp[0] * exp[1] * exp[2]
@@ -926,17 +1519,29 @@ def run_array(c, case, labels, cap=CAP):
 
 
 def oracle_array(case):
+    return with_units(case, _oracle_array)
+
+
+def _oracle_array(case, out):
     c = setup(case['disl'])
     labels = labels_of(c)
     d = build(c)
     if d is None:
+        out['kind'] = 'solver_refused'
         return labels | {'solver_refused'}
     am = c.am
     apply_history(c, case, 'periodicarray', labels)
     r = run_array(c, case, labels)
+    after_call(c, labels, 'the judged periodicarray() call', None if r is None else (r['base'], r['disl']), 'judged')
     labels.add('linear' if case.get('linear') else 'solution')
     if r is None:
+        out.update(kind='refusal:' + '+'.join(sorted(x for x in labels if x.startswith('refusal_'))), s=c.s)
+        later_calls(c, case, None, labels)
+        class_labels(c, case, labels)
         return labels
+    out.update(kind='array', natoms=int(r['disl'].natoms), nrem=int(r['nrem']), old_id=np.array(r['disl'].atoms.old_id).tolist(), s=c.s)
+    if c.uf != 1.0 and 'cutoff' not in r['kw'] and r['nrem']:
+        labels.add('units_default_cutoff')
     check_shift_attribute(c, d, 'after periodicarray()')
     base, disl, vects, origin, center = r['base'], r['disl'], r['vects'], r['origin'], r['center']
     nfull, nrem, L, w, cutoff = r['nfull'], r['nrem'], r['L'], r['w'], r['cutoff']
@@ -1070,8 +1675,10 @@ def oracle_array(case):
     require(d.disl_system is disl, 'disl_system attribute is not the returned system')
     require(d.base_system is base, 'base_system attribute is not the returned (trimmed) system')
     labels.add('center_' + case['center']['kind'])
-    if isinstance(r['kw']['sizemults'], tuple):
+    if isinstance(r['kw'].get('sizemults'), tuple):
         labels.add('tuple')
+    later_calls(c, case, r, labels)
+    class_labels(c, case, labels)
     return labels
 
 
